@@ -243,7 +243,7 @@ func (m *monC05) Finish(rc *RunCtx) {
 }
 
 func init() {
-	simProps["C05"] = simProp{checkSpec{Prop: "C05", Level: "exploration", NQuick: 400, NThorough: 12000,
+	simProps["C05"] = simProp{checkSpec{Prop: "C05", Level: "exploration", NQuick: 2000, NThorough: 40000,
 		Rule:   "cases = generated projects with random start / end / annual output dates (incl. leap years, 30./31. of a month), output intervals {0 (no daily file),1,2,3,7,10,30,365}, both result styles, random output configurations over scalars, 1-D and 2-D array elements, nested fields, text and unknown variables; the V/Y/C files written by the real run are parsed and compared with an independent calendar: one record per expected day / annual date / harvested rotation entry, in order, with exactly the configured number of fields; non-trivial = run > 30 days",
 		Floors: []string{"daily_records", "yearly_records", "crop_records", "runs_csv", "runs_fixed_width", "leap_days_expected", "runs_interval_1", "runs_interval_7", "runs_interval_365", "runs_interval_0"}},
 		func() []Monitor { return []Monitor{&monC05{}} }}
